@@ -18,7 +18,7 @@ func init() {
 		Assumptions: []string{"reference predicate refcose.WellFormed* transcribes the property statement (RFC 9052 section 3.1 rules, nested countersignatures)", "only the direction accepted => well-formed is judged here (the converse is C07)"},
 		Real:        []string{"github.com/veraison/go-cose decoders", "github.com/fxamacker/cbor/v2"},
 		Stubs:       []string{"wire with fault injection and replay between messages", "foreign peer (reference model)", "entropy source"},
-		QuickRuns:   12000, ThoroughRuns: 500000,
+		QuickRuns:   600000, ThoroughRuns: 10000000,
 	}
 }
 
